@@ -797,6 +797,8 @@ try:
     d = base('ring', ev='no_sheet'); d['eqpt'] = [{'a': 'i1', 'z': 'B', 'west': {'type': 'std_low_gain'}}, {'a': 'i1', 'z': 'A'}]
     NEG.append(('two-eqpt-rows-for-one-ila-reverse', d))
     d = base(); d['links_east_header'] = False; NEG.append(('links-sheet-without-east-header', d))
+    d = base('ring', ev='no_sheet'); d['eqpt'] = [{'a': 'f1', 'z': 'B', 'east': {'type': 'std_low_gain'}, 'west': {'type': 'std_low_gain'}}]
+    NEG.append(('eqpt-row-for-a-fused-site', d))
     for key, d in NEG:
         run_negative('reject/' + key, d)
     # ---- an amplifier site whose Eqpt row declares both amplifiers 'fused': a route list may still name the site
